@@ -153,7 +153,7 @@ class Ctx:
         self.states = 0
         self.transitions = 0
         self.known = load_known(self.prop)
-        self.replay_dir = os.path.join(VERIF, "replays", self.prop)
+        self.replay_dir = os.path.join(os.environ.get("VERIF_REPLAY_DIR") or os.path.join(VERIF, "replays"), self.prop)
         self.harness_errors = []
         self.sigs = {}
         global RUN_DIR
@@ -247,11 +247,13 @@ class Ctx:
             "wall_s": round(time.time() - self.t0, 2),
             "violations": self.nviol,
         }
-        os.makedirs(os.path.join(VERIF, "evidence"), exist_ok=True)
-        tmp = os.path.join(VERIF, "evidence", ".%s.tmp" % self.prop)
+        # VERIF_EVIDENCE_DIR is only set by tools/seed*.sh, so that runs against deliberately broken trees never overwrite evidence
+        evdir = os.environ.get("VERIF_EVIDENCE_DIR") or os.path.join(VERIF, "evidence")
+        os.makedirs(evdir, exist_ok=True)
+        tmp = os.path.join(evdir, ".%s.tmp" % self.prop)
         with open(tmp, "w") as f:
             json.dump(ev, f, indent=1, sort_keys=False, default=str)
-        os.replace(tmp, os.path.join(VERIF, "evidence", self.prop + ".json"))
+        os.replace(tmp, os.path.join(evdir, self.prop + ".json"))
         for key, (cnt, wit) in sorted(self.known_hits.items()):
             print("KNOWN-FINDING: property=%s %s: %s (%d cases, witness=%s)"
                   % (self.prop, key, self.known[key]["what"], cnt, json.dumps(wit, default=str)[:200]))
